@@ -2,10 +2,11 @@
 # (Re)build llgo from /repo's current working tree. Output: /verif/build/llgo/<treehash>/llgo ; prints the path.
 set -e
 . /verif/tc/env.sh
-B=/verif/build
+B=${VERIF_BUILD:-/verif/build}
+R=${VERIF_REPO:-/repo}
 mkdir -p $B/llgo
 # hash of compiler-relevant sources in the working tree (content, not mtimes)
-H=$(cd /repo && (git ls-files -co --exclude-standard -- cmd cl ssa internal xtool go.mod go.sum runtime targets 2>/dev/null | LC_ALL=C sort | xargs -d '\n' sha256sum 2>/dev/null; cat /verif/tc/src/opaque.go) | sha256sum | cut -c1-16)
+H=$(cd $R && (git ls-files -co --exclude-standard -- cmd cl ssa internal xtool go.mod go.sum runtime targets 2>/dev/null | LC_ALL=C sort | xargs -d '\n' sha256sum 2>/dev/null; cat /verif/tc/src/opaque.go) | sha256sum | cut -c1-16)
 OUT=$B/llgo/$H/llgo
 if [ ! -x $OUT ]; then
   (
@@ -13,9 +14,9 @@ if [ ! -x $OUT ]; then
     if [ ! -x $OUT ]; then
       mkdir -p $B/llgo/$H
       cat > $B/llgo/$H/ov.json <<EOF
-{"Replace": {"/repo/ssa/zz_verif_opaque.go": "/verif/tc/src/opaque.go"}}
+{"Replace": {"$R/ssa/zz_verif_opaque.go": "/verif/tc/src/opaque.go"}}
 EOF
-      (cd /repo && go build -tags llvm14,dev -overlay $B/llgo/$H/ov.json -o $OUT.tmp ./cmd/llgo) >&2
+      (cd $R && go build -tags llvm14,dev -overlay $B/llgo/$H/ov.json -o $OUT.tmp ./cmd/llgo) >&2
       mv $OUT.tmp $OUT
       # keep only the 4 most recent builds
       ls -dt $B/llgo/*/ | tail -n +5 | xargs -r rm -rf
